@@ -172,4 +172,58 @@ theorem step_multipartReply (self : Slice → R V) (s : Slice) (h : s.byteAt 1 =
     parseStep self s = MultipartReply.unmarshalWith anyLenM MultipartReply.zero s := by
   unfold parseStep; rw [h]; rfl
 
+/-! ### loops: one iteration at a time -/
+
+theorem goLoop_stop {σ} (f : Nat) (cond : σ → Bool) (cursor : σ → Nat) (body : σ → R σ) (s : σ)
+    (h : cond s = false) : goLoop (f + 1) cond cursor body s = .ok s := by
+  unfold goLoop; simp [h]
+
+theorem goLoop_step {σ} (f : Nat) (cond : σ → Bool) (cursor : σ → Nat) (body : σ → R σ) (s s' : σ)
+    (hc : cond s = true) (hb : body s = .ok s') (hlt : cursor s < cursor s') :
+    goLoop (f + 1) cond cursor body s = goLoop f cond cursor body s' := by
+  conv => lhs; unfold goLoop
+  simp only [hc, if_true, hb]
+  rw [if_neg (by omega)]
+
+theorem msgLoopW_stop {σ} (f : Nat) (cond : σ → Bool) (cursor : σ → Nat) (body : σ → R σ) (s : σ)
+    (h : cond s = false) : msgLoopW (f + 1) cond cursor body s = .ok s := by
+  unfold msgLoopW; simp [h]
+
+theorem msgLoopW_step {σ} (f : Nat) (cond : σ → Bool) (cursor : σ → Nat) (body : σ → R σ) (s s' : σ)
+    (hc : cond s = true) (hb : body s = .ok s') (hlt : cursor s < cursor s') :
+    msgLoopW (f + 1) cond cursor body s = msgLoopW f cond cursor body s' := by
+  conv => lhs; unfold msgLoopW
+  simp only [hc, if_true, hb]
+  rw [if_neg (by omega)]
+
+/-! ### byte strings of a fixed small length are explicit lists -/
+
+theorem len6 (l : Bytes) (h : l.length = 6) : ∃ a b c d e f, l = [a, b, c, d, e, f] := by
+  match l, h with
+  | [a, b, c, d, e, f], _ => exact ⟨a, b, c, d, e, f, rfl⟩
+
+theorem len16 (l : Bytes) (h : l.length = 16) :
+    ∃ a0 a1 a2 a3 a4 a5 a6 a7 a8 a9 a10 a11 a12 a13 a14 a15,
+      l = [a0, a1, a2, a3, a4, a5, a6, a7, a8, a9, a10, a11, a12, a13, a14, a15] := by
+  match l, h with
+  | [a0, a1, a2, a3, a4, a5, a6, a7, a8, a9, a10, a11, a12, a13, a14, a15], _ =>
+    exact ⟨a0, a1, a2, a3, a4, a5, a6, a7, a8, a9, a10, a11, a12, a13, a14, a15, rfl⟩
+
+theorem ofNat16_toNat (n : Nat) (h : n < 65536) : (UInt16.ofNat n).toNat = n := by
+  simp [UInt16.toNat_ofNat', Nat.mod_eq_of_lt h]
+
+/-- dropping a prefix of known length -/
+theorem drop_pre (pre post : Bytes) (n : Nat) (hn : pre.length = n) : (pre ++ post).drop n = post := by
+  subst hn; simp
+
+theorem take_pre (pre post : Bytes) (n : Nat) (hn : pre.length = n) : (pre ++ post).take n = pre := by
+  subst hn; simp
+
+/-- `make([]byte, n); copy(dst, src)` with at least n source bytes: the first n source bytes -/
+theorem copyInto_zeros (n : Nat) (src : Bytes) (h : n ≤ src.length) : copyInto (zeros n) src = src.take n := by
+  simp [copyInto, List.drop_eq_nil_of_le, h]
+
+theorem copyInto_nil (src : Bytes) : copyInto [] src = [] := by
+  simp [copyInto]
+
 end OFV.Sw
